@@ -85,6 +85,8 @@ const (
 	keyName    = "tsig-key.example."
 )
 
+var parSecrets = []string{"cGFyYWxsZWwtc2VjcmV0LW9uZS0wMTIzNDU2Nzg5", "cGFyYWxsZWwtc2VjcmV0LXR3by1hYmNkZWZnaGlq", "cGFyYWxsZWwtc2VjcmV0LXRocmVlLXh5enh5eno="}
+
 var algs = []string{dns.HmacSHA1, dns.HmacSHA224, dns.HmacSHA256, dns.HmacSHA384, dns.HmacSHA512}
 
 var regions = []string{"id", "header", "counts", "question", "records", "tsig-owner", "tsig-fixed", "tsig-alg", "tsig-time", "tsig-fudge", "tsig-macsize", "mac", "tsig-origid", "tsig-error", "tsig-otherlen"}
@@ -767,19 +769,24 @@ type parTask struct {
 //go:norace
 func (p *parTask) RunEvent(time.Time) {
 	k := p.k
+	// odd-numbered tasks have a key, a secret and an algorithm of their own (a process that talks to several peers)
+	key, secret, alg := keyName, secretGood, p.sc.Alg
+	if p.idx%2 == 1 && p.sc.RunSeed%2 == 0 {
+		key, secret, alg = fmt.Sprintf("key-%d.parallel.test.", p.idx), parSecrets[p.idx%len(parSecrets)], algs[(p.idx+int(p.sc.RunSeed%5))%len(algs)]
+	}
 	for round := 0; round < 3; round++ {
 		m := new(dns.Msg)
 		m.SetQuestion(fmt.Sprintf("p%d-r%d.parallel.test.", p.idx, round), dns.TypeTXT)
 		m.Id = uint16(900 + p.idx*8 + round)
-		m.SetTsig(keyName, p.sc.Alg, uint16(p.sc.Fudge), time.Now().Unix())
+		m.SetTsig(key, alg, uint16(p.sc.Fudge), time.Now().Unix())
 		k.Yield("par.sign", p.idx)
-		out, mac, err := dns.TsigGenerate(m, secretGood, "", false)
+		out, mac, err := dns.TsigGenerate(m, secret, "", false)
 		k.Yield("par.verify", p.idx)
 		var verr error
 		var v oracle.TSIGVerdict
 		if err == nil {
-			v = oracle.VerifyTSIG(out, map[string]string{keyName: secretGood}, nil, false, uint64(time.Now().Unix()))
-			verr = dns.TsigVerify(append([]byte(nil), out...), secretGood, "", false)
+			v = oracle.VerifyTSIG(out, map[string]string{key: secret}, nil, false, uint64(time.Now().Unix()))
+			verr = dns.TsigVerify(append([]byte(nil), out...), secret, "", false)
 		}
 		k.Lock()
 		p.res.Stats["oracle.G1_parallel_sign_verify"]++
